@@ -35,7 +35,8 @@ def killer_funcs(P):
     fs = [m for m in c.methods.values() if any(isinstance(x, ast.Call) and isinstance(x.func, ast.Attribute) and x.func.attr == "kill" for x in own_nodes(m.node))]
     if not fs:
         raise AnalysisError("no ResourcePool method calls Container.kill: the OOM killer was not found")
-    return sorted(fs, key=lambda m: m.node.lineno)
+    from ..util import inline_helpers
+    return [inline_helpers(P, m) for m in sorted(fs, key=lambda m: m.node.lineno)]   # scoring / ranking extracted into a private helper is looked through
 
 
 def kill_sites(f) -> List[ast.Call]:
@@ -101,6 +102,29 @@ def _run(ctx):
         _run_one(ctx, f, last=(f is fs[-1]), pool_level_total=pool_level)
 
 
+def _projection(f, lp: ast.For):
+    """lp iterates  [c for (.., c, ..) in L]  (directly, or through a local defined once as that comprehension and never mutated):
+    -> (L, index of c in the entry)"""
+    it = lp.iter
+    if isinstance(it, ast.Name):
+        defs = [n for n in own_nodes(f.node) if isinstance(n, ast.Assign) and any(norm.is_name(t, it.id) for t in n.targets)]
+        muts = [c for c in own_nodes(f.node) if isinstance(c, ast.Call) and isinstance(c.func, ast.Attribute) and norm.is_name(c.func.value, it.id)]
+        if len(defs) != 1 or muts:
+            return None
+        it = defs[0].value
+    if not (isinstance(it, ast.ListComp) and len(it.generators) == 1 and not it.generators[0].ifs and isinstance(it.generators[0].iter, ast.Name)):
+        return None
+    gen = it.generators[0]
+    if isinstance(gen.target, ast.Tuple) and isinstance(it.elt, ast.Name):
+        for i, e in enumerate(gen.target.elts):
+            if norm.is_name(e, it.elt.id):
+                return gen.iter.id, i
+    if isinstance(gen.target, ast.Name) and isinstance(it.elt, ast.Subscript) and norm.is_name(it.elt.value, gen.target.id) and isinstance(it.elt.slice, ast.Constant) \
+            and isinstance(it.elt.slice.value, int):
+        return gen.iter.id, it.elt.slice.value
+    return None
+
+
 def _run_one(ctx, f, last, pool_level_total):
     P = ctx.P
     ctx.touch(f)
@@ -122,7 +146,13 @@ def _run_one(ctx, f, last, pool_level_total):
         L = None
         cont_idx = None
         d = "the kill is not in a loop over the candidate list"
-        if lp is not None and isinstance(lp.iter, ast.Name):
+        proj = _projection(f, lp) if lp is not None else None
+        if proj is not None and norm.is_name(lp.target, norm.U(k.func.value)):
+            # for victim in [c for _, c in scored]: an order-preserving projection of the candidate list onto the container component
+            L, cont_idx = proj
+            ok_iter = True
+            d = f"loop `{stmt_text(lp)}` over the containers of {L}, in its order; the victim is component {cont_idx} of each entry"
+        elif lp is not None and isinstance(lp.iter, ast.Name):
             L = lp.iter.id
             recv = norm.U(k.func.value)
             if isinstance(lp.target, ast.Tuple):
